@@ -35,6 +35,15 @@ REG = {
         ],
         "trusted_base": ["modelled, not verified: bufio.Scanner, io.ReadFull, io.CopyN, net.Pipe as the in-memory connection whose reads return exactly the scripted pieces"],
     },
+    "C13": {
+        "assumptions": [
+            "notifications are applied by the client in the order the server queued them (the statement quantifies histories, not schedules); the harness delivers the outbox sequentially through the real sendTransaction and uses a keep-alive round trip as barrier",
+            "'once traffic settles' = no connection is between its login and its first announcement (Agreed / SetClientUserInfo); the fetched user list also shows such connections (observation, DESIGN.md section 8 #23)",
+            "fewer than 65,536 users are connected at once (some ID is free)",
+            "accounts used by the harness hold AnyName, so supplied names are adopted (the any-name rule is C05's)",
+        ],
+        "trusted_base": ["std++ 1.8.0 gmap (axiom-free)", "modelled, not verified: net.Pipe delivery, math/big bit operations behind UserFlags.Set"],
+    },
     "C16": {
         "assumptions": [
             "YAML documents are modelled as key->bool association lists; yaml.v3 itself (struct marshalling in field order, mapping/sequence decoding) is exercised through the real account manager on every run, not verified",
